@@ -104,7 +104,7 @@ Spec == Init /\ [][Step]_vars /\ WF_vars(Step)
 
 Finished == exit # -1
 Obs == [exit |-> exit, errline |-> errline, named |-> named,
-        out |-> IF cfg.cause \in {"output_device_full", "stdout_full"} \cup InputCauses THEN "n/a"
+        out |-> IF cfg.cause \in {"output_device_full", "stdout_full", "stdout_closed"} \cup InputCauses THEN "n/a"
                 ELSE IF cfg.outp = "stdout" /\ cfg.cause # "none" /\ cfg.cause \notin LateCauses(cfg.cmd) THEN "none"
                 ELSE IF cfg.outp = "stdout" THEN (IF cfg.cause = "none" THEN "full" ELSE "prefix1")
                 ELSE IF cell = "old" THEN "untouched" ELSE cell]
